@@ -338,8 +338,6 @@ func scenarios(tier string, yield func(any) bool) {
 	}
 }
 
-
-
 func bounds(tier string) (explore.Bounds, int) {
 	b := explore.DefaultBounds(1)
 	b[explore.KSched] = 3
